@@ -1,4 +1,5 @@
 import BurrowVerif.Model.Storage
+import BurrowVerif.Model.Reaper
 import BurrowVerif.Model.StorageConf
 import BurrowVerif.Model.Group
 import BurrowVerif.Model.Float32
@@ -152,6 +153,12 @@ def step (st : St) (args : List String) : St × String :=
         match parseInt? d with
         | some d => (some (shiftTimes s d), "ok")
         | none => (st, "bad-op")
+      | "reap", [c, kg] =>
+        -- the cluster module's groups reaper against this storage: Kafka lists `kg` ("!" = the listing fails)
+        let kafka : Option (List String) := if kg == "!" then none else if kg == "-" then some [] else some ((kg.splitOn ",").map name)
+        -- names travel hex-encoded and the model keeps them so: the spared group burrow-<cluster> is hex("burrow-") ++ <cluster>
+        let s' := Burrow.Reaper.runIgnoring s (name c) ("627572726f772d" ++ name c) kafka
+        (some s', "reaped " ++ showOptList (fetchConsumerList s' (name c)))
       | "clusters", [] => (st, "list=" ++ showList (fetchClusterList s))
       | "consumers", [c] => (st, showOptList (fetchConsumerList s (name c)))
       | "topics", [c] => (st, showOptList (fetchTopicList s (name c)))
